@@ -70,6 +70,17 @@ def run(F, rep):
     # raw lengths are coded against segment_size + k: the reader has to take the segment size the writer recorded in params
     from rules import c02
     c02.params_len_rule(F, rep, "C03-PARAMS")
+    # names are listed as the header line gives them: the record id clause of the reader (C19-G4's evaluation, shared)
+    from rules import c19
+    sub19 = type(rep)(rep.pid, rep.tier)
+    sub19.cfg = getattr(rep, "cfg", "dev")
+    c19.run(F, sub19)
+    nh = 0
+    for o in sub19.obligations:
+        if o["rule"] == "C19-G4":
+            nh += 1
+            rep.ob("C03-HEADER", o["instance"], o["ok"], detail=o["detail"], site=o["site"], how=o["how"], key=o["key"].replace("C19-G4", "C03-HEADER"))
+    rep.floor("C03-HEADER", nh, 1, "record id clause shared with C19")
 
 
 def cursor_rule(F, rep, rule="C03-BATCH"):
